@@ -655,3 +655,95 @@ pub fn rerender(item: &str, r: &mut Rng) -> Option<String> {
     }
     Some(out)
 }
+
+
+fn helper_attr_name(derive: &str) -> String {
+    // Display -> display, FromStr -> from_str, IntoIterator -> into_iterator, ...
+    let mut out = String::new();
+    for (i, c) in derive.chars().enumerate() {
+        if c.is_uppercase() && i > 0 {
+            out.push('_');
+        }
+        out.extend(c.to_lowercase());
+    }
+    match out.as_str() {
+        "binary" | "octal" | "lower_hex" | "upper_hex" | "lower_exp" | "upper_exp" | "pointer" => out,
+        _ => out,
+    }
+}
+
+/// A *broken* relative of an item: the same item with one or two attribute problems (a duplicated helper
+/// attribute, an unknown parameter, a second `source`) — requests that walk the derives' error paths,
+/// possibly with two problems at once (which one is reported must not depend on history either).
+pub fn breaker(key: &Key, r: &mut Rng) -> Option<Key> {
+    let mut di: syn::DeriveInput = syn::parse_str(&key.item).ok()?;
+    let name = helper_attr_name(&key.derive);
+    let bogus: syn::Attribute = {
+        let src = format!("# [{name} (bogus_{} )] struct X ;", r.below(9));
+        let x: syn::DeriveInput = syn::parse_str(&src).ok()?;
+        x.attrs.into_iter().next()?
+    };
+    let how = r.below(4);
+    let mut changed = false;
+    // 1: duplicate an existing helper attribute somewhere
+    if how == 0 || how == 2 {
+        if let Some(a) = di.attrs.iter().find(|a| !a.path().is_ident("repr")).cloned() {
+            di.attrs.push(a);
+            changed = true;
+        } else {
+            let mut dup = |attrs: &mut Vec<syn::Attribute>| {
+                if let Some(a) = attrs.first().cloned() {
+                    attrs.push(a);
+                    true
+                } else {
+                    false
+                }
+            };
+            match &mut di.data {
+                syn::Data::Struct(st) => {
+                    for f in st.fields.iter_mut() {
+                        if dup(&mut f.attrs) {
+                            changed = true;
+                            break;
+                        }
+                    }
+                }
+                syn::Data::Enum(e) => {
+                    for v in e.variants.iter_mut() {
+                        if dup(&mut v.attrs) {
+                            changed = true;
+                            break;
+                        }
+                    }
+                }
+                _ => {}
+            }
+        }
+    }
+    // 2: an unknown parameter on the item, or on a field
+    if how == 1 || how == 2 || !changed {
+        if r.chance(1, 2) {
+            di.attrs.push(bogus);
+        } else {
+            match &mut di.data {
+                syn::Data::Struct(st) => match st.fields.iter_mut().next() {
+                    Some(f) => f.attrs.push(bogus),
+                    None => di.attrs.push(bogus),
+                },
+                syn::Data::Enum(e) => match e.variants.iter_mut().next() {
+                    Some(v) => v.attrs.push(bogus),
+                    None => di.attrs.push(bogus),
+                },
+                _ => di.attrs.push(bogus),
+            }
+        }
+        changed = true;
+    }
+    if !changed {
+        return None;
+    }
+    Some(Key {
+        derive: key.derive.clone(),
+        item: di.to_token_stream().to_string(),
+    })
+}
